@@ -149,7 +149,11 @@ def main():
             undecided.append(f"scan {sname}: {r['detail']}")
 
     # ---------------------------------------------------------------- bounded stand-ins (Kani / native driver)
+    _open = [k for k in known.get("findings", []) if k.get("status") == "open" and k["property"] == pid]
+    cfg = dict(cfg, _known_keys=[k["key"] for k in _open], _known={k["key"]: k["what"] for k in _open})
     b = bounded.run(pid, cfg, a.tier, seed, REPO)
+    for kf in dict.fromkeys(b.get("known_hits", [])):
+        print(f"KNOWN-FINDING: property={pid} {kf}")
     cov["bounded"] = b["report"]
     for v in b["violations"]:
         violations.append(v)
